@@ -951,6 +951,24 @@ fn dump<'tcx>(tcx: TyCtxt<'tcx>) -> J {
                     iv.push(io);
                 }
                 o.set("items", J::Arr(iv));
+                // provided (default) methods of the trait that this impl does NOT override: their behaviour on this type is
+                // the external default body applied to the impl's required methods
+                if let Some(tref) = tcx.impl_opt_trait_ref(did) {
+                    let tdid = tref.instantiate_identity().skip_norm_wip().def_id;
+                    let mut overridden: Vec<rustc_span::def_id::DefId> = vec![];
+                    for it in tcx.associated_items(did).in_definition_order() {
+                        if let Some(t) = it.trait_item_def_id() {
+                            overridden.push(t);
+                        }
+                    }
+                    let mut inh = vec![];
+                    for it in tcx.associated_items(tdid).in_definition_order() {
+                        if matches!(it.kind, ty::AssocKind::Fn { .. }) && it.defaultness(tcx).has_value() && !overridden.contains(&it.def_id) {
+                            inh.push(J::Str(it.name().to_string()));
+                        }
+                    }
+                    o.set("inherited", J::Arr(inh));
+                }
                 impls.push(o);
             }
             DefKind::Struct | DefKind::Enum | DefKind::Union => {
